@@ -730,7 +730,7 @@ func c11CheckPackets(c c11PktCase) engine.Result {
 	}
 	engine.Guard(&res, "packet-level", func() {
 		for _, L := range c11PayloadLens(c.Thorough) {
-			for afVariant := 0; afVariant < 4; afVariant++ {
+			for afVariant := 0; afVariant < 5; afVariant++ {
 				// how the payload length comes about
 				var af *ref.AF
 				afLen := 183 - L
@@ -747,6 +747,9 @@ func c11CheckPackets(c c11PktCase) engine.Result {
 				case L <= 180 && afVariant == 2:
 					// an adaptation field whose content is an extension of one byte (flags byte with the reserved bits set)
 					af = &ref.AF{Ext: []byte{0x1F}}
+				case L <= 176 && afVariant == 4:
+					// a PCR and nothing else (flags byte exactly 0x10), followed by stuffing up to the payload
+					af = &ref.AF{PCR: ref.PCRBytes(0x1FFFFFFFF*300 + 299)}
 				case L <= 172 && afVariant == 3:
 					// PCR, private data and an extension that fill the field up to one stuffing byte
 					af = &ref.AF{PCR: ref.PCRBytes(0x0102030405), Private: filler[:afLen-11], Ext: []byte{0x1F}}
